@@ -11,19 +11,79 @@ TECH = ("contract-based deductive verification: sidecar pre/postconditions, loop
         "bounded runtime-contract workload as labelled stand-in for the parts outside the verifier's reach")
 
 # property -> (category, text, note)
+BND = " Bounded parts are labelled bounded in the evidence and never counted as proved."
 READY = {
-    "C02": ("proof", "Tokenizer HedString.split_hed_string proved for all strings (tiling, span characters, maximal trimmed runs) with an "
-                     "inductive invariant; parenthesis-mismatch reporting proved against the spec function balanced(). Tree construction, "
-                     "print/re-parse round trip: bounded (exhaustive over all strings up to length 6/8 over the delimiter alphabet).",
-            "array encoding of strings (code points), `is` on 1-char strings as ==; HedTag/HedGroup constructors not verified (bounded only)"),
-    "C03": ("proof", "Left-to-right resolution (_find_tag_entry/_find_tag_subfunction) and suffix-form registration (_get_tag_forms) proved "
-                     "against the abstract view tag_view: deepest known boundary prefix, remainder verbatim, '#' child switch; sub-tag error "
-                     "spans in range. Canonical-form round trips over every tag of every bundled schema: bounded (exhaustive in thorough tier).",
-            "casefold uninterpreted and assumed length-preserving on the resolved text; the tag section is trusted to hold exactly the "
-            "registered forms (loaders not verified); _validate_remaining_terms trusted"),
+ "C01": ("proof", "Rule layer under contract: per-tag rules (exists/extension, requireChild, deprecated, placeholder) proved as iff-clauses over an "
+         "abstract view of the resolved node (so for every schema); orchestration of validate() and run_basic_checks() proved (order, early exits, "
+         "nothing dropped, errors-only filter); parenthesis balance proved against balanced(); kind->published-code table proved by evaluation of "
+         "the extracted decorator table. Whole-string verdicts over the real schemas (valid => no error, one fault => its code): bounded workload." + BND,
+         "abstract HedTag model (has_attr/base_has_attr uninterpreted), trusted callee contracts named in evidence.trusted_base, regex engine, "
+         "format_error modelled from the decorator table"),
+ "C02": ("proof", "Tokenizer HedString.split_hed_string proved for all strings (tiling, span characters, maximal trimmed runs) with an "
+         "inductive invariant; parenthesis-mismatch reporting proved against balanced(). Tree construction (split_into_groups) and the "
+         "print/re-parse round trip: bounded, exhaustive over all strings up to length 6/8 over the delimiter alphabet." + BND,
+         "array encoding of strings (code points); `is` on 1-char strings as ==; HedTag/HedGroup constructors not verified (bounded only)"),
+ "C03": ("proof", "Left-to-right resolution (_find_tag_entry/_find_tag_subfunction) and suffix-form registration (_get_tag_forms) proved "
+         "against the abstract view tag_view: deepest known boundary prefix, remainder verbatim, '#' child switch; sub-tag error spans in range. "
+         "Canonical-form round trips over every tag of every bundled schema: bounded (exhaustive in thorough tier)." + BND,
+         "casefold uninterpreted and assumed length-preserving on the resolved text; tag section trusted to hold exactly the registered forms "
+         "(loaders not verified); _validate_remaining_terms trusted"),
+ "C04": ("other", "Relational property. Deductive part: the C01 rule contracts speak about a tag only through its resolved node and extension "
+         "(proved in C01/C03), which gives spelling-invariance of each rule. Spacing, sibling-order and duplicate detection are decided by the "
+         "bounded workload only (all trees <= 3-4 leaves, all orderings/spellings/blank rewrites)." + BND,
+         "no obligation of this property's own is discharged: the check is a bounded stand-in and says so"),
+ "C05": ("other", "File round trips run through ElementTree/pandas and are outside the verifier: bounded workload (every bundled schema x 3 formats x "
+         "merged/unmerged, generated edits, independent XML walk, refusal of multi-library saves)." + BND, "no obligations discharged (bounded only)"),
+ "C06": ("other", "Cell handlers (_category_handler, _value_handler) proved from the property text (n/a and empty cells are absent, listed keys select "
+         "their entry, template filled). Splicing (re.sub), pandas transforms and the frame of assemble(): bounded workload against an oracle written "
+         "from the property." + BND, "str.replace uninterpreted with three sound facts; pandas, re not modelled"),
+ "C07": ("proof", "Span remapping for joined row strings proved against joined_offset (induction); error-context stack proved balanced on every path of "
+         "_run_checks/_run_onset_checks/_validate_column_structure (ghost depth). Equality with string-level validation, labels, shuffle invariance: "
+         "bounded workload." + BND, "loops of the pandas-facing functions explored as one arbitrary iteration (sound for the ghost balance); values opaque"),
+ "C08": ("proof", "Brace scanner proved against braces_ok() for all strings (iff, indices in range); error-context stack proved balanced on every path of "
+         "the five sidecar-validation functions. Totality over all JSON documents to depth 3 and single-fault codes: bounded workload." + BND,
+         "array encoding of strings; opaque values in the context-balance contracts"),
+ "C09": ("other", "Name rule (_strip_value_placeholder) proved; acceptance rules, expand/shrink typestate and Def-expand comparison are decided by the "
+         "bounded workload (all op sequences <= 3-4 over expand/shrink/copy/validate/str)." + BND,
+         "the filtered-list counting invariant of _validate_placeholders was not decided by z3/cvc5 within budget and is not claimed"),
+ "C10": ("proof", "Open-scope dictionary under contract: _handle_onset_or_offset proved against the abstract view open(self)=keys(_onsets) with whole-view "
+         "postconditions (Onset opens, Offset closes iff open else reports, Inset reports iff not open; case-insensitive name). Time-point construction "
+         "(Delay, sorting, equal onsets) and same-name-twice: bounded workload over all histories <= 3-4 markers." + BND,
+         "casefold uninterpreted; HedTag model; validate_temporal_relations' fold over markers bounded only"),
+ "C11": ("proof", "Lookup rule (symbol exact, name any case), conversion factor (defined whenever accepted and declared; absent not exception), value/unit "
+         "split (prefix units) and totality of value_as_default_unit proved. Derived-unit table construction (inflect) and every bundled unit x prefix x "
+         "spelling: bounded workload (exhaustive in thorough tier)." + BND, "casefold uninterpreted; floats as reals; inflect/plural not modelled"),
+ "C12": ("proof", "Offset translation proved (inside tag span, selects the sub-fragment, suffix appended only on first decoration - ghost counter), filter = "
+         "exactly the allowed-severity subset, decoration keeps every error and invents nothing, sub-tag span preconditions discharged at call sites "
+         "(C01/C03 contracts). Sorting, JSON export, end-to-end fragments: bounded workload." + BND,
+         "Issue model with ghost span fields; _get_tag_span_to_error_object and _add_context_to_errors trusted"),
+ "C13": ("other", "Prefix extraction (_get_schema_namespace) proved from the property text. Dispatch, partnered-library content and refusal cases: bounded "
+         "workload over all offline pairings." + BND, "only one function of this property is under contract"),
+ "C14": ("proof", "Attribute validators conversion_factor, unit_exists, tag_is_placeholder_check proved as iff/implication clauses with the published code. "
+         "Acceptance of all bundled schemas and seeded faults at sampled positions: bounded workload." + BND,
+         "float parsing uninterpreted; derivative_unit lookup trusted; hedId validator (dynamic typing) bounded only"),
+ "C15": ("proof", "Result merging (identity-union of tags, same group, ValueError iff groups differ) and has_same_tags proved. Term matching, Or/And laws, "
+         "sibling-order invariance, frame and parser totality: bounded workload (5.7M evaluations quick)." + BND,
+         "structural == of HedGroup uninterpreted reflexive relation; sort modelled as a permutation"),
+ "C16": ("proof", "Applicability test is_sidecar_for proved iff the property's condition (same file, or same suffix, ancestor directory, every entity "
+         "matched) with an invariant over the entity dictionary. Discovery, merge order, dataset/CLI agreement: bounded workload on generated trees." + BND,
+         "os.path.commonpath/dirname uninterpreted; dict iteration as an order-free enumeration"),
+ "C17": ("proof", "Purity as frame obligations: every in-place update in do_op of the eight operations targets an object allocated in the call (pandas "
+         "effect table); None-safety of optional parameters proved through __init__ class invariants. Table meaning per operation: bounded workload." + BND,
+         "pandas effect table (methods return new objects unless inplace/known mutators); loops explored as one arbitrary iteration"),
+ "C18": ("proof", "create_backup proved: never overwrites, copies precede the record, record written last and lists every file (ghost file-system trace, loop "
+         "invariant); restore writes only recorded originals; task filter rule. Crash injection and byte identity: bounded workload." + BND,
+         "file-system extern models (copy completes before returning, json.dump prefix invalid), uninterpreted path functions"),
+ "C19": ("proof", "Three sequential disciplines proved: lock held on return from __enter__ and released on exit, population only under the lock; no non-atomic "
+         "copy to a served name (publication by os.replace); bookkeeping total (torn timestamp reads as 0). Interleavings/crash points themselves are "
+         "reduced to these disciplines plus OS assumptions; fault injection: bounded workload." + BND,
+         "portalocker/flock exclusivity, rename atomicity, extern file-system models; multi-process schedules not explored"),
+ "C20": ("other", "Decided by the bounded workload only (all valid histories <= 4-5 rows against contexts_spec written from the property). The triple "
+         "loop of _extract_context over nested lists was not brought under an inductive invariant in this round." + BND,
+         "no obligations discharged (bounded only)"),
 }
 
-PENDING_REASON = "check under construction in this round (contracts not yet written); see DESIGN.md section 3"
+PENDING_REASON = "not claimed"
 
 
 def main():
